@@ -24,6 +24,7 @@ first_missed = {
  'C01-d': 'in the quick tier two-operation shapes ran simulate_moment_steps with split_untangled_states only from a symbolic state object (which bypasses the product-state container); configuration (moment steps, split, basis state) added to the quick tier afterwards (the thorough tier already had it)',
  'C08-c': 'equality was only checked between gates; obligation equality.controlled_operations (10 control-value objects incl. correlated SumOfProducts, both control listings, symbolic exponent) added afterwards',
  'C08-d': 'equality predicates were only checked between gates; obligation equality.operations_qubit_order (operations on every pair of qubit orders, ==, approx_eq, equal_up_to_global_phase) added afterwards',
+ 'C09-c': 'multi-qubit Kraus channels and re-use of one channel object were not exercised; obligation dm_simulate.kraus2_reuse added afterwards (the aliasing shows in the CONCRETE validation points: the numpy proxies copy)',
  'C19-b': 'the concrete KAK fall-back menu only had gates with interaction (x,0,0); matrix-only gates with generic coefficients added afterwards',
 }
 still = {
